@@ -79,6 +79,24 @@ def run(ctx):
     res.require_instances("C01 obligations", len(res.obligations), 60)
 
 
+def sec_distinct(rc: RuleCtx):
+    """The part of C01 that makes a simplifier's output a strictly increasing, duplicate-free index list: every child
+    range is a strict sub-range with an interior point (R1, R1b) and each step retains exactly one index of it (R2).
+    Borrowed by properties that consume the reduced curve (C08: a repeated point breaks every later stage)."""
+    m = rm.build(rc, "rdp.rdp", {"cost": Obj("enum", "Metrics.smape")})
+    _r1(rc, m, "rdp.rdp[smape]", lemma_metric="smape")
+    _r2_threshold(rc, m, "smape")
+    for q in ("rdp._rdp_fixed", "rdp._grdp"):
+        for oname in ORDERS:
+            bind = {"order": Obj("enum", f"Order.{oname}")}
+            if q.endswith("_grdp"):
+                bind["cost"] = Obj("enum", "Metrics.smape")
+            m = rm.build(rc, q, bind)
+            _r1(rc, m, f"{q}[{oname}]")
+            _r1b_push_guards(rc, m, f"{q}[{oname}]")
+            _r2_fixed(rc, m, f"{q}[{oname}]")
+
+
 # --------------------------------------------------------------------------
 def _domain_facts(mname=None) -> G:
     t = sym("t")
